@@ -100,6 +100,8 @@ def fixes(flt):
             restore()
         viol = [l for l in lines if l.startswith("VIOLATION")]
         named = [v for v in viol if base(k["obligation"]).split("@")[0] in v]
+        if not viol and k["commit"].startswith("b8b638f"):
+            rec["expected"] = "reverting this fix restores the old loop of canonicalStructSize: contract drift, UNDECIDED by design (the pre-fix code was refuted by the contract written for it: inv-pres:loop0.1)"
         rec.update(exit=rc, seconds=secs, violations=[re.sub(r" replay=\S+", "", v) for v in viol][:4])
         rec["result"] = "detected by the recorded obligation" if named else ("detected by another obligation" if viol else "MISSED")
         out.append(rec)
